@@ -68,7 +68,7 @@ def check_program(spec, grid, want_coverage=True, max_issues=5, results=None, sk
     ref_cache = {}
     for inputs in grid:
         stats["inputs"] += 1
-        env = hdriver.mk_env(inputs)
+        env = hdriver.mk_env(inputs, spec.get("symbolic_storage"))
         covered = False
         ref_plain = None
         for idx, pr, pe in evals:
